@@ -12,6 +12,8 @@ TEMPLATES = {
     "tab": ["if True:\n\tx = 1\n        y = 2\n"],
     "nul": ["x = 1\x00\n", "\x00"],
     "syntax_noline": ["x = 1\x00\n"],
+    "unencodable": ["x = '\ud800'\n", "# \udfff\nx = 1\n"],
+    "resource": ["-" * 50000 + "1\n", "x = " + "not " * 20000 + "1\n"],
 }
 
 
@@ -33,6 +35,8 @@ def classify(text):
         return "indent", e.lineno or 0
     except SyntaxError as e:
         return ("syntax" if e.lineno else "syntax_noline"), e.lineno or 0
+    except UnicodeEncodeError:
+        return "unencodable", 0
     except ValueError:
         return "nul", 0
     except (RecursionError, MemoryError):
